@@ -174,3 +174,43 @@ let () = Reg.register "c12.shipped" (fun inp out ->
       | Some (toks, ovf) -> monitor src true toks ovf (get_bool hasline) false None) in
     (out, verdict)
   | _ -> failwith "c12.shipped")
+
+(* hypothesis of the C12 theorems on real tables: (name lexer has_actions).  Lexers with hand-written actions
+   (test, tm, js) are only required to pass the structural part: their entry behaviour is changed by the actions. *)
+let () = Reg.register "c12.wf" (fun inp out ->
+  match lst inp with
+  | [_; lxs; acts] ->
+    (match lxs with
+     | L [] -> (A "0", "bad:shipped-grammar-unavailable")
+     | _ ->
+       let lx = get_lexer lxs in
+       let st = LexerWf.wf_tables lx.LexerRT.lx_tables and en = LexerWf.wf_entry lx in
+       let ok = st && (en || get_bool acts) in
+       (L [put_bool st; put_bool (en || get_bool acts)], if ok then "ok" else "bad:lexer-tables-not-well-formed"))
+  | _ -> failwith "c12.wf")
+
+(* rune class tables: input symbol map; output ((class...) ((lo hi default (vals))...) use_map last) *)
+let () = Reg.register "c11.maps" (fun inp out ->
+  let m = get_list (fun e -> match lst e with [a; b] -> (get_z a, get_z b) | _ -> failwith "entry") inp in
+  let put_rt (rt : LexerMaps.rune_tables) =
+    L [put_list put_z rt.LexerMaps.rt_class;
+       put_list (fun e -> L [put_z e.LexerMaps.ce_lo; put_z e.LexerMaps.ce_hi; put_z e.LexerMaps.ce_default; put_list put_z e.LexerMaps.ce_vals]) rt.LexerMaps.rt_ranges;
+       put_bool rt.LexerMaps.rt_use_map; put_z rt.LexerMaps.rt_last] in
+  let model = put_rt (LexerMaps.rune_tables_of m) in
+  let verdict = (match lst out with
+    | [cls; rgs; um; lt] ->
+      let rt = { LexerMaps.rt_class = get_list get_z cls;
+                 rt_ranges = get_list (fun e -> match lst e with
+                   | [a; b; c; d] -> { LexerMaps.ce_lo = get_z a; ce_hi = get_z b; ce_default = get_z c; ce_vals = get_list get_z d }
+                   | _ -> failwith "centry") rgs;
+                 rt_use_map = get_bool um; rt_last = get_z lt } in
+      (* the implementation's own tables, looked up the way the generated lexer does, against the plain map *)
+      let pts = Stdlib.List.sort_uniq compare (Stdlib.List.concat_map (fun (s, _) -> let s = int_of_z s in [s - 1; s; s + 1; s + 7; s + 8; s + 9])
+                  m @ [0; 1; 255; 256; 257; 2047; 2048; 2049; 65535; 65536; 1114111]) in
+      let bad = Stdlib.List.find_opt (fun r -> r >= 0 && r <= 1114111 &&
+        int_of_z (LexerMaps.rune_class rt (z_of_int r)) <> int_of_z (Tables.lookup_sym m (z_of_int r))) pts in
+      (* hypothesis of C11_map_rune_finds_the_range, evaluated on the implementation's tmRuneRanges *)
+      if not (LexerMaps.ranges_sortedb (z_of_int 256) rt.LexerMaps.rt_ranges) then "bad:rune-ranges-not-ascending-disjoint" else
+      (match bad with None -> "ok" | Some _ -> "bad:rune-class-lookup-differs-from-symbol-map")
+    | _ -> "bad:unparsable") in
+  (model, verdict))
